@@ -2,6 +2,7 @@ package c13
 
 import (
 	"bytes"
+	"crypto/ecdsa"
 	"encoding/asn1"
 	"encoding/base64"
 	"fmt"
@@ -54,6 +55,16 @@ func p7SignedEnveloped() []byte {
 	return must(s.Finish())
 }
 
+// p7EnvelopedWrongKeyLen: the recipient info carries (SM2-encrypted, hence not reachable by byte mutation) a
+// 5-byte content-encryption key; any sender holding the recipient certificate can produce this.
+func p7EnvelopedWrongKeyLen() []byte {
+	ed := must(pkcs7.NewSM2EnvelopedData(pkcs.SM4CBC, p7Content))
+	must0(ed.AddRecipient(kr.EncCert(), 1, func(cert *smx509.Certificate, key []byte) ([]byte, error) {
+		return sm2.EncryptASN1(detRand("p7-wrong-key-len"), cert.PublicKey.(*ecdsa.PublicKey), key[:5])
+	}))
+	return must(ed.Finish())
+}
+
 func p7Follow(x *cx, n string, p7 *pkcs7.PKCS7) {
 	x.g(n+">Verify", func() { p7.Verify() })
 	x.g(n+">VerifyAsDigest", func() { p7.VerifyAsDigest() })
@@ -91,6 +102,7 @@ func epsPKCS7() []*epT {
 		{name: "p7-encrypted-psk-sm4gcm", gen: p7EncryptedPSKSM},
 		{name: "p7-encrypted-psk-aes256cbc", gen: p7EncryptedPSK},
 		{name: "p7-signed-enveloped-sm2", gen: p7SignedEnveloped, parts: 8},
+		{name: "p7-enveloped-sm2-5-byte-content-key", gen: p7EnvelopedWrongKeyLen, parts: 3, hostile: true},
 	}
 	for _, s := range seeds {
 		regSeed(s)
